@@ -11,6 +11,8 @@ import (
 	"fmt"
 	"sync/atomic"
 	"unsafe"
+
+	"github.com/grailbio/bigslice/internal/simhook"
 )
 
 // Scope is a collection of metric instances.
@@ -84,10 +86,12 @@ func (s *Scope) instance(m Metric) interface{} {
 		panic("metric: metric returned nil instance")
 	}
 	for {
+		simhook.Yield("scope.instance.load", simhook.NoKey)
 		ptr := atomic.LoadPointer(&list[m.metricID()])
 		if ptr != nil {
 			return *(*interface{})(ptr)
 		}
+		simhook.Yield("scope.instance.cas", simhook.NoKey)
 		if atomic.CompareAndSwapPointer(&list[m.metricID()], ptr, unsafe.Pointer(&inst)) {
 			return inst
 		}
@@ -121,11 +125,13 @@ func (s *Scope) store(m Metric, v interface{}) {
 // if empty.
 func (s *Scope) list() []unsafe.Pointer {
 	for {
+		simhook.Yield("scope.list.load", simhook.NoKey)
 		ptr := atomic.LoadPointer(&s.storage)
 		if ptr != nil {
 			return *(*[]unsafe.Pointer)(ptr)
 		}
 		list := make([]unsafe.Pointer, len(metrics))
+		simhook.Yield("scope.list.cas", simhook.NoKey)
 		if atomic.CompareAndSwapPointer(&s.storage, ptr, unsafe.Pointer(&list)) {
 			return list
 		}
